@@ -38,7 +38,7 @@ EXC_PARENTS = {
     'FileNotFoundError': 'OSError', 'FileExistsError': 'OSError', 'PermissionError': 'OSError',
     'OSError': 'Exception', 'ValueError': 'Exception', 'TypeError': 'Exception',
     'AttributeError': 'Exception', 'AssertionError': 'Exception', 'RuntimeError': 'Exception',
-    'StopIteration': 'Exception', 'JSONDecodeError': 'ValueError',
+    'StopIteration': 'Exception', 'JSONDecodeError': 'ValueError', 'SyntaxError': 'Exception',
     'ReplicatError': 'Exception', 'DecryptionError': 'ReplicatError',
     'AuthRequired': 'ReplicatError', 'InvalidConfig': 'ReplicatError',
     'InvalidTag': 'Exception',
